@@ -104,6 +104,9 @@ impl Ctxs {
 }
 
 struct HsResult {
+    /// unsealed data messages accepted by an end that had not completed the handshake / after completion at end A, B
+    plain_early: u64,
+    plain_after: [&'static str; 2],
     x: u64,
     y: u64,
     res: &'static str,
@@ -134,9 +137,23 @@ fn feed_guarded(pc: &mut PeerCrypto<NodeInfo>, bytes: &[u8]) -> Fed {
 }
 
 /// One real handshake over a loss-free network: `init` (0 = A, 1 = B) sends the ping.
+/// an unsealed data message (type byte 0 + payload) offered to an end: accepted as payload?
+fn plain_probe(pc: &mut PeerCrypto<NodeInfo>) -> bool {
+    let payload = [0x45u8, 0, 0, 20, 1, 2, 3, 4, 5, 6, 7, 8, 9, 10, 11, 12, 13, 14, 15, 16];
+    let mut d = vec![0u8];
+    d.extend_from_slice(&payload);
+    open_data(pc, &d).map(|p| p == payload).unwrap_or(false)
+}
+
 fn handshake(ctx: [&Crypto; 2], init: usize) -> HsResult {
     let mut ends = [ctx[0].peer_instance(node_info(1)), ctx[1].peer_instance(node_info(2))];
     let mut done = [false; 2];
+    let mut plain_early = 0u64;
+    for e in ends.iter_mut() {
+        if plain_probe(e) {
+            plain_early += 1;
+        }
+    }
     let mut why = String::new();
     let mut panicked = false;
     let mut dgrams = 0;
@@ -155,6 +172,12 @@ fn handshake(ctx: [&Crypto; 2], init: usize) -> HsResult {
         if dgrams > 12 {
             why = "handshake does not terminate".into();
             break;
+        }
+        // "unencrypted only if both enabled it": an end that has not completed never takes an unsealed message
+        for i in 0..2 {
+            if !done[i] && plain_probe(&mut ends[i]) {
+                plain_early += 1;
+            }
         }
         match feed_guarded(&mut ends[to], &bytes) {
             Fed::Panic(p) => {
@@ -179,6 +202,14 @@ fn handshake(ctx: [&Crypto; 2], init: usize) -> HsResult {
                 }
             }
             Fed::Other => {}
+        }
+    }
+    let mut plain_after = ["na"; 2];
+    for i in 0..2 {
+        if done[i] {
+            plain_after[i] = if plain_probe(&mut ends[i]) { "acc" } else { "rej" };
+        } else if plain_probe(&mut ends[i]) {
+            plain_early += 1;
         }
     }
     let sel = |i: usize, e: &PeerCrypto<NodeInfo>| if done[i] { id_of(e.algorithm_name()) } else { 99 };
@@ -209,7 +240,7 @@ fn handshake(ctx: [&Crypto; 2], init: usize) -> HsResult {
     } else {
         "half"
     };
-    HsResult { x, y, res, probe, dgrams, why }
+    HsResult { plain_early, plain_after, x, y, res, probe, dgrams, why }
 }
 
 // ------------------------------------------------------------------------------------------- enumeration
@@ -503,7 +534,8 @@ fn edit_family(ctx: [&Crypto; 2], g: u64, a: &Cfg, b: &Cfg, t: &mut Vec<Value>, 
 
 fn nego_event(gid: u64, ca: &Cfg, cb: &Cfg, init: usize, r: &HsResult) -> Value {
     json!({"op":"nego","g":gid,"grid":ca.grid,"a":jl(&ca.list),"ap":ca.plain,"b":jl(&cb.list),"bp":cb.plain,
-           "init":if init == 0 {"A"} else {"B"},"x":r.x,"y":r.y,"res":r.res,"probe":r.probe,"dgrams":r.dgrams,"why":r.why})
+           "init":if init == 0 {"A"} else {"B"},"x":r.x,"y":r.y,"res":r.res,"probe":r.probe,"dgrams":r.dgrams,"why":r.why,
+           "plain_early":r.plain_early,"plain_after":r.plain_after})
 }
 
 fn list_of(v: &Value) -> List {
